@@ -1,0 +1,85 @@
+// Copyright © 2024 Attestant Limited.
+// Licensed under the Apache License, Version 2.0 (the "License");
+// you may not use this file except in compliance with the License.
+// You may obtain a copy of the License at
+//
+//     http://www.apache.org/licenses/LICENSE-2.0
+//
+// Unless required by applicable law or agreed to in writing, software
+// distributed under the License is distributed on an "AS IS" BASIS,
+// WITHOUT WARRANTIES OR CONDITIONS OF ANY KIND, either express or implied.
+// See the License for the specific language governing permissions and
+// limitations under the License.
+
+//go:build verif
+
+// Package verifhook provides instrumentation points for deterministic simulation.
+// With the 'verif' build tag the functions forward to handlers installed by a simulator;
+// when no handler is installed they do nothing, except that VERIF_HOOK_KILL_AT=N makes the
+// process kill itself (SIGKILL, no clean-up) at the N-th storage point it reaches.
+package verifhook
+
+import (
+	"os"
+	"strconv"
+	"sync/atomic"
+	"syscall"
+)
+
+var (
+	// PointHandler is called on entry to a storage operation; a non-nil error is returned to the caller
+	// of the storage operation instead of carrying it out.
+	PointHandler func(store any, op string, key []byte) error
+	// PointDoneHandler is called when a storage operation has completed.
+	PointDoneHandler func(store any, op string, key []byte)
+	// BeforeLockHandler is called immediately before a blocking mutex acquisition.
+	BeforeLockHandler func(mutex any, label string, key []byte)
+
+	killAt    int64
+	pointsHit atomic.Int64
+)
+
+//nolint:gochecknoinits
+func init() {
+	if v := os.Getenv("VERIF_HOOK_KILL_AT"); v != "" {
+		if n, err := strconv.ParseInt(v, 10, 64); err == nil {
+			killAt = n
+		}
+	}
+}
+
+func countAndMaybeKill() {
+	if killAt <= 0 {
+		return
+	}
+	if pointsHit.Add(1) == killAt {
+		// Die as a power-cut or OOM-kill would: no deferred functions, no store close.
+		_ = syscall.Kill(os.Getpid(), syscall.SIGKILL)
+		select {}
+	}
+}
+
+// Point marks entry to a storage operation.
+func Point(store any, op string, key []byte) error {
+	countAndMaybeKill()
+	if h := PointHandler; h != nil {
+		return h(store, op, key)
+	}
+
+	return nil
+}
+
+// PointDone marks the completion of a storage operation.
+func PointDone(store any, op string, key []byte) {
+	countAndMaybeKill()
+	if h := PointDoneHandler; h != nil {
+		h(store, op, key)
+	}
+}
+
+// BeforeLock marks a blocking mutex acquisition that is about to happen.
+func BeforeLock(mutex any, label string, key []byte) {
+	if h := BeforeLockHandler; h != nil {
+		h(mutex, label, key)
+	}
+}
